@@ -6,15 +6,22 @@ import re._constants as sc
 from . import terms as T
 from .core import Unsupported
 from .values import (SymStr, mkstr, decide, ceq, cin_range, zor, zand, znot, c_isspace, c_isdigit,
-                     c_isword, chars_of)
+                     c_isword, chars_of, u_isspace, u_isdecimal, u_isword)
+
+_UNI = [True]      # str patterns use the Unicode categories unless re.ASCII is given (set per matching run)
+
+
+def _p(ascii_pred, uni_pred, ch):
+    return uni_pred(ch) if _UNI[0] else ascii_pred(ch)
+
 
 def cat_pred(cat, ch):
-    if cat in (sc.CATEGORY_DIGIT, sc.CATEGORY_UNI_DIGIT): return c_isdigit(ch)
-    if cat in (sc.CATEGORY_NOT_DIGIT, sc.CATEGORY_UNI_NOT_DIGIT): return znot(c_isdigit(ch))
-    if cat in (sc.CATEGORY_SPACE, sc.CATEGORY_UNI_SPACE): return c_isspace(ch)
-    if cat in (sc.CATEGORY_NOT_SPACE, sc.CATEGORY_UNI_NOT_SPACE): return znot(c_isspace(ch))
-    if cat in (sc.CATEGORY_WORD, sc.CATEGORY_UNI_WORD): return c_isword(ch)
-    if cat in (sc.CATEGORY_NOT_WORD, sc.CATEGORY_UNI_NOT_WORD): return znot(c_isword(ch))
+    if cat in (sc.CATEGORY_DIGIT, sc.CATEGORY_UNI_DIGIT): return _p(c_isdigit, u_isdecimal, ch)
+    if cat in (sc.CATEGORY_NOT_DIGIT, sc.CATEGORY_UNI_NOT_DIGIT): return znot(_p(c_isdigit, u_isdecimal, ch))
+    if cat in (sc.CATEGORY_SPACE, sc.CATEGORY_UNI_SPACE): return _p(c_isspace, u_isspace, ch)
+    if cat in (sc.CATEGORY_NOT_SPACE, sc.CATEGORY_UNI_NOT_SPACE): return znot(_p(c_isspace, u_isspace, ch))
+    if cat in (sc.CATEGORY_WORD, sc.CATEGORY_UNI_WORD): return _p(c_isword, u_isword, ch)
+    if cat in (sc.CATEGORY_NOT_WORD, sc.CATEGORY_UNI_NOT_WORD): return znot(_p(c_isword, u_isword, ch))
     if cat == sc.CATEGORY_LINEBREAK: return ceq(ch, 10)
     if cat == sc.CATEGORY_NOT_LINEBREAK: return znot(ceq(ch, 10))
     raise Unsupported('category %s' % cat)
@@ -37,10 +44,11 @@ class M:
         self.cs = cs
         self.n = len(cs)
         self.flags = flags
+        _UNI[0] = not (flags & re.ASCII)
 
     def isword_at(self, i):
         if i < 0 or i >= self.n: return False
-        return c_isword(self.cs[i])
+        return _p(c_isword, u_isword, self.cs[i])
 
     def seq(self, nodes, idx, pos, groups, k):
         if idx == len(nodes):
